@@ -79,6 +79,56 @@ def rollup(res, spec, obs, d, ph, sub):
             res.stats["rollups"] += 1
 
 
+def check_replace(res, case, spec, ta):
+    """analysis, then the phase-configured component is REPLACED (change_comp, same name, now with a limit; its phase configuration is thereby
+    reset, or set again afterwards), then the warnings must be those of the system as it now is."""
+    from ..sysmodel import make_comp
+    who = case["who"]
+    phases = list(spec["phases"])
+    for reconf in (False, True):
+        sp2 = copy.deepcopy(spec)
+        c2 = [c for c in sp2["comps"] if c["n"] == who][0]
+        if not reconf:
+            c2["pc"] = None
+        try:
+            df0, _ = quiet_call(build(sp2).solve, ta=ta)
+        except (RuntimeError, ValueError):
+            res.classes.add("unsolvable")
+            continue
+        obs0 = observe(df0)
+        d = resolve(sp2)
+        q0 = {(ph, n): quantities(obs0[(ph, n)], ta) for ph in phases for n in d}
+        for key in APPL.get(d[who]["k"], KEYS):
+            for how in ("inside", "above-max", "below-min"):
+                lim_ = place(key, q0[(phases[-1], who)][key], how, False)   # placed relative to the phase the old configuration left out
+                if lim_ is None:
+                    continue
+                lim = {key: lim_}
+                s = build(spec)
+                quiet_call(s.solve, ta=ta)
+                c2["lim"] = lim
+                s.change_comp(who, comp=make_comp(c2), group=c2.get("g", ""), rail=c2.get("r", ""))
+                if reconf:
+                    s.set_comp_phases(who, copy.deepcopy(c2["pc"]))
+                df, _ = quiet_call(s.solve, ta=ta)
+                obs = observe(df)
+                res.stats["evaluations"] += 1
+                res.stats["transitions"] += 3
+                for ph in phases:
+                    for m in d:
+                        exp = expected_tokens(dict(d[m]), q0[(ph, m)], lim if m == who else None, ph)
+                        got = set(str(obs[(ph, m)].get("Warnings", "")).split())
+                        if got != exp:
+                            res.v(("C09.tokens-after-replace", d[m]["k"], key if m == who else "-", how if m == who else "-", "reconfigured" if reconf else "reset"),
+                                  "phase %r %s limits %r: Warnings %r expected %r" % (ph, m, lim if m == who else None, sorted(got), sorted(exp)))
+                        if m == who and exp:
+                            res.stats["flips"] += 1
+                    rollup(res, sp2, obs, d, ph, None)
+    res.nontrivial = 1 if res.stats["flips"] else 0
+    res.classes.add("replaced")
+    return res
+
+
 def check_case(case):
     res = Res()
     ta = case["ta"]
@@ -109,6 +159,8 @@ def check_case(case):
                 res.stats["flips"] += 1
         res.nontrivial = 1
         return res
+    if case.get("replace"):
+        return check_replace(res, case, spec, ta)
     phases = list(spec["phases"]) if spec.get("phases") else [""]
     s0 = build(spec)
     try:
@@ -189,6 +241,12 @@ def gen_cases(tier):
                 if c["k"] in PHASE_LIST_KINDS or c["k"] in LOADS:
                     if n <= 1 or tier != "quick" or c is spec["comps"][-1]:
                         yield dict(fam="one", f=f, pal=pal, pol=1, ta=25.0, who=c["n"], pc=pc_options(c, PH2, False)[1], target=c["n"])
+    for n in (1, 2):   # replaced after an analysis
+        for f in mid.iter_forests(n):
+            spec = spec_from_forest(f, pal, 1, 0.37)
+            for c in spec["comps"][1:]:
+                if (c["k"] in PHASE_LIST_KINDS or c["k"] in LOADS) and (n == 1 or c["p"] != ["S"]):
+                    yield dict(fam="one", f=f, pal=pal, pol=1, ta=25.0, who=c["n"], pc=pc_options(c, PH2, False)[1], replace=True)
     for kind, args in (("RLoss", dict(rs=0.001)), ("VLoss", dict(vdrop=1.0)), ("LinReg", dict(vo=2.9e6, vdrop=1.0)), ("PSwitch", dict(rs=0.001)),
                        ("PMux", dict(rs=0.001)), ("Rectifier", dict(vdrop=1.0)), ("Converter", dict(vo=2.0e6, eff=0.9))):
         yield dict(fam="huge", f=[], pal=pal, pol=1, ta=25.0, kind=kind, args=args)
